@@ -167,6 +167,24 @@ class NullLog:
     def critical(self, *a, **k): pass
 
 
+class DebugLog(NullLog):
+    """NullLog whose debug() really renders its message and data (output discarded) when --debug is
+    in force: rendering is part of how a library call ends (ConsolePrinter._debug_scalar calls str()
+    on the data and can raise)."""
+    def __init__(self, debug_on):
+        super().__init__()
+        self.cp = _ENV["ConsolePrinter"](types.SimpleNamespace(quiet=False, verbose=False, debug=True)) if debug_on else None
+
+    def debug(self, message, **kwargs):
+        if self.cp is not None:
+            saved = sys.stdout
+            sys.stdout = io.StringIO()
+            try:
+                self.cp.debug(message, **kwargs)
+            finally:
+                sys.stdout = saved
+
+
 # ----------------------------------------------------------------------------
 # plain data and document identifiers
 
@@ -836,7 +854,11 @@ def judge_diff(case, f):
     if (st == 0) == differs or st not in (0, 1):
         return "yaml-diff exit status %s but the differ reports %s" % (st, "differences" if differs else "no difference")
     ld, rd = f["pair"]
-    if (ld == rd) == differs:
+    # "exit 0 exactly when data-equal" is what positional comparison (the defaults) promises (C06); with
+    # --arrays value / --aoh key|deep|value or a --config file equality is up to what those disregard
+    positional = ns.arrays in (None, "position") and ns.aoh in (None, "position", "dpos") and not ns.config
+    unkeyed = ns.aoh not in ("key", "deep") and not ns.config
+    if (positional and (ld == rd) == differs) or (unkeyed and ld == rd and differs):
         return ("library: the differ reports %s for documents that are %s" %
                 ("differences" if differs else "no difference", "data-equal" if ld == rd else "not data-equal"))
     printed = [l for l in f["printed"] if l.startswith("(entry")]
@@ -913,8 +935,9 @@ def noise_lines(text, file_mode):
     return lines, "\n".join(rest)
 
 
-def file_effects(reg, target, before_bytes, before_mtime, bak_before):
-    """Effects observed on the target file and its .bak."""
+def file_effects(reg, target, before_bytes, before_mtime, bak_before, failed=False):
+    """Effects observed on the target file and its .bak.  `failed`: the run ended in an uncaught
+    exception; the target rewritten with exactly its original bytes is then the restore path."""
     fx = []
     bak = target + ".bak"
     if os.path.exists(bak):
@@ -924,7 +947,9 @@ def file_effects(reg, target, before_bytes, before_mtime, bak_before):
     if os.path.exists(target):
         st = os.stat(target)
         nb = open(target, "rb").read()
-        if before_bytes is None or st.st_mtime_ns != before_mtime or nb != before_bytes:
+        if failed and before_bytes is not None and nb == before_bytes and st.st_mtime_ns != before_mtime:
+            fx.append("restored")
+        elif before_bytes is None or st.st_mtime_ns != before_mtime or nb != before_bytes:
             parsed = parse_dump(nb.decode("utf-8", "replace"))
             if parsed is None:
                 fx.append("(write unparsable)")
@@ -1055,8 +1080,10 @@ def judge_merge(case, f):
         return ("library: yaml-merge -M %s: Merger.merge_with worked on nodes shared by reference; a merge changed a "
                 "bystander document or never returned (%s)"
                 % (ns.multi_doc_mode, ",".join(sorted(set(f["aliasing"])))))
-    if ns.multi_doc_mode != "condense_all" or ns.config or isinstance(st, tuple):
+    if ns.multi_doc_mode != "condense_all" or isinstance(st, tuple):
         return None
+    if ns.config and not os.path.isfile(ns.config):
+        return None if st == 1 else "yaml-merge accepted a missing --config file"
     names = list(ns.yaml_files)
     dashes = sum(1 for x in names if x.strip() == "-")
     if dashes > 1 or (ns.backup and not ns.overwrite) or (ns.output and f.get("target_existed")):
@@ -1135,6 +1162,7 @@ def exec_set(case, ns0):
         I(len(ns.random_from)), B(pathlib.Path(file_eff).suffix.lower() == ".json"))
     # the library steps, on a fresh load, with the arguments main() passes
     flow = {}
+    import secrets
 
     def note(data):
         bit = bool(hasattr(data, "fa") and data.fa.flow_style())
@@ -1143,21 +1171,48 @@ def exec_set(case, ns0):
         return i
     data, fail = raw_load_one(file_eff, stdin)
     facts = {"ns": ns0, "file": file_eff, "stream": stream, "loaded": fail is None, "final": None,
-             "gather_failed": False, "check_failed": False, "orig": None}
+             "gather_failed": False, "check_failed": False, "orig": None, "dump_err": None}
     load_sx = "(fail %s)" % LST(hexs(c) for c in fail) if fail is not None else \
         "(doc %s)" % ("none" if data is None else "(some %s)" % I(note(data)))
     facts["orig"] = None if fail is not None else plain(data)
     gather_sx, built_sx = "(ok ())", "(raise (crash s))"
-    saveto_t, change_t = {}, {}
-    if fail is None:
-        log = NullLog()
+    saveto_t, change_t, dump_t, jview_t = {}, {}, {}, {}
+    # the replacement value, obtained as main() obtains it (secrets.choice is an oracle: both this
+    # computation and the real run below use the same deterministic stand-in)
+    new_value, has_new, value_ok = None, False, True
+    valfile_err = "none"
+    cverb_t = {}
+    chooser = make_chooser()
+    if ns.value or ns.value == "":
+        new_value, has_new = ns.value, True
+    elif ns.stdin:
+        new_value, has_new = ("" if stdin is None else stdin), True
+    elif ns.file:
+        try:
+            with open(ns.file, "r", encoding="utf-8") as fh:
+                new_value = fh.read().rstrip()
+            has_new = True
+        except Exception as e:  # noqa
+            value_ok = False
+            valfile_err = "(some %s)" % hexs(type(e).__name__)
+    elif ns.null:
+        new_value, has_new = None, True
+    elif ns.random is not None:
+        # (an empty / one-character pool is refused by validateargs before this point)
+        new_value, has_new = ("".join(chooser(ns.random_from) for _ in range(ns.random)) if ns.random_from else ""), True
+    facts["new_value"] = new_value
+    if fail is None and value_ok:
+        from yamlpath.enums import YAMLValueFormats
+        from yamlpath.eyaml.enums import EYAMLOutputFormats
+        log = DebugLog(bool(ns.debug) and not ns.quiet)
         change_path = E["YAMLPath"](ns.change, pathsep=ns.pathsep)
-        new_value = ns.value if ns.value is not None else None
-        has_new = ns.value is not None or ns.null
         must_exist = bool(ns.mustexist or ns.delete or ns.saveto)
         tag = ns.tag
         if tag and not tag[0] == "!":
             tag = "!" + tag
+        anchor = ns.anchor
+        if anchor:
+            anchor = anchor.replace(" ", "").replace("&", "").replace("*", "")
         ok = True
         if data is None:
             try:
@@ -1166,16 +1221,33 @@ def exec_set(case, ns0):
             except Exception as e:  # noqa
                 built_sx = "(raise %s)" % ufam(e)
                 ok = False
+        old_format = YAMLValueFormats.DEFAULT
         if ok:
             proc = E["EYAMLProcessor"](log, data, binary=ns.eyaml, publickey=ns.publickey, privatekey=ns.privatekey)
             nodes = []
             try:
                 for nc in proc.get_nodes(change_path, mustexist=True, default_value=("" if new_value else " ")):
                     nodes.append(nc)
-                gather_sx = "(ok %s)" % LST(
-                    "(sn %s (ok false) %s)" % (B(proc.is_eyaml_value(nc.node)), B(ns.check == nc.node)) for nc in nodes)
-                if ns.check and any(not (ns.check == nc.node) for nc in nodes):
-                    facts["check_failed"] = True
+                sns = []
+                for nc in nodes:
+                    is_ey = bool(proc.is_eyaml_value(nc.node))
+                    dec = "(ok false)"
+                    eq = bool(ns.check == nc.node)
+                    if is_ey and ns.check and not (bool(ns.publickey) != bool(ns.privatekey)):
+                        try:
+                            eq_dec = bool(ns.check == proc.decrypt_eyaml(nc.node))
+                            dec = "(ok %s)" % B(eq_dec)
+                            if not eq_dec:
+                                facts["check_failed"] = True
+                        except (Exception, RecursionError) as e:  # noqa
+                            dec = "(raise %s)" % ufam(e)
+                            facts["check_failed"] = True
+                    elif ns.check and (is_ey or not eq):
+                        facts["check_failed"] = True
+                    sns.append("(sn %s %s %s)" % (B(is_ey), dec, B(eq)))
+                gather_sx = "(ok %s)" % LST(sns)
+                if len(nodes) == 1:
+                    old_format = YAMLValueFormats.from_node(nodes[0].node)
             except (Exception, RecursionError) as e:  # noqa
                 gather_sx = "(raise %s)" % ufam(e)
                 nodes = []
@@ -1185,12 +1257,14 @@ def exec_set(case, ns0):
             if facts["check_failed"]:
                 ok = False
         if ok and ns.saveto:
-            from yamlpath.enums import YAMLValueFormats
             d0 = note(data)
             if len(nodes) == 1:
-                old_format = YAMLValueFormats.from_node(nodes[0].node)
+                old_value = nodes[0].node
+                if old_format in (YAMLValueFormats.FOLDED, YAMLValueFormats.LITERAL) \
+                        and E["EYAMLProcessor"].is_eyaml_value(old_value):
+                    old_value = old_value.replace(" ", "\n")
                 try:
-                    proc.set_value(E["YAMLPath"](ns.saveto, pathsep=ns.pathsep), E["Nodes"].clone_node(nodes[0].node),
+                    proc.set_value(E["YAMLPath"](ns.saveto, pathsep=ns.pathsep), E["Nodes"].clone_node(old_value),
                                    value_format=old_format, tag=tag)
                     saveto_t[d0] = "(ok %s)" % I(note(data))
                 except (Exception, RecursionError) as e:  # noqa
@@ -1200,11 +1274,26 @@ def exec_set(case, ns0):
                 ok = False
         if ok:
             d1 = note(data)
+            verb_before = len(log.verb)
             try:
                 if ns.delete:
                     proc.delete_gathered_nodes(nodes)
+                elif ns.aliasof:
+                    proc.alias_gathered_nodes(nodes, ns.aliasof, anchor_name=anchor)
+                elif ns.mergekey:
+                    proc.ymk_gathered_nodes(nodes, ns.mergekey, change_path, anchor_name=anchor)
+                elif ns.eyamlcrypt:
+                    format_type = YAMLValueFormats.from_str(ns.format)
+                    if format_type is YAMLValueFormats.DEFAULT:
+                        format_type = old_format
+                    output_type = EYAMLOutputFormats.STRING
+                    if format_type in [YAMLValueFormats.FOLDED, YAMLValueFormats.LITERAL]:
+                        output_type = EYAMLOutputFormats.BLOCK
+                    proc.set_eyaml_value(change_path, new_value, output=output_type, mustexist=False)
                 elif has_new:
                     proc.set_value(change_path, new_value, value_format=ns.format, mustexist=must_exist, tag=tag)
+                elif tag:
+                    proc.tag_gathered_nodes(nodes, tag)
                 change_t[d1] = "(ok %s)" % I(note(data))
                 facts["final"] = plain(data)
             except E["YPE"] as e:
@@ -1216,23 +1305,54 @@ def exec_set(case, ns0):
                 change_t[d1] = "eyaml"
             except (Exception, RecursionError) as e:  # noqa
                 change_t[d1] = "(crash %s)" % ufam(e)
+            cverb_t[d1] = I(len(log.verb) - verb_before)
+        if data is not None:
+            # how ruamel's dump of the state that would be written ends (oracle)
+            try:
+                E["Parsers"].get_yaml_editor().dump(data, io.StringIO())
+                dump_t[note(data)] = "none"
+            except (Exception, RecursionError) as e:  # noqa
+                dump_t[note(data)] = "(some %s)" % hexs(type(e).__name__)
+                facts["dump_err"] = type(e).__name__
+            # what the JSON text of the state reloads to (oracle; only read for JSON output)
+            try:
+                jview_t[note(data)] = I(reg.id_of_plain(plain(json_view(data))))
+            except (Exception, RecursionError):  # noqa
+                jview_t[note(data)] = I(note(data))
     tbl = lambda t: LST("(%s %s)" % (I(k), v) for k, v in sorted(t.items()))  # noqa
-    req = "(cli-set %s %s %s %s %s %s %s %s %s)" % (
-        a, B(tty), B(bool(ns.file) and os.path.isfile(ns.file or "")), load_sx, gather_sx, built_sx,
-        tbl(saveto_t), tbl(change_t), LST("(%s %s)" % (I(i), B(v)) for i, v in sorted(flow.items())))
+    req = "(cli-set %s %s %s %s %s %s %s %s %s %s %s %s)" % (
+        a, B(tty), valfile_err, load_sx, gather_sx, built_sx,
+        tbl(saveto_t), tbl(change_t), LST("(%s %s)" % (I(i), B(v)) for i, v in sorted(flow.items())), tbl(dump_t),
+        tbl(jview_t), tbl(cverb_t))
     target = "" if stream else file_eff
     tb, tm = age(target) if target else (None, None)
     bakb = open(target + ".bak", "rb").read() if target and os.path.exists(target + ".bak") else None
-    status, out, err = run_main("set", case["argv"], stdin)
+    status, out, err = run_main("set", case["argv"], stdin, patches=[(secrets, "choice", make_chooser())])
     lines, rest = noise_lines(out, bool(target))
-    if not target and rest.strip() != "":
+    if not target and isinstance(status, tuple) and (rest.strip() != "" or facts["dump_err"]):
+        # the dumper raised half way: what it had written so far is not a document
+        lines.append("dump-partial")
+    elif not target and rest.strip() != "":
         parsed = parse_dump(rest)
         lines.append("(dump unparsable)" if parsed is None else "(dump %s %s)" % (B(parsed[0]), dump_ids(reg, parsed[1])))
         facts["dumped"] = parsed
-    fx = file_effects(reg, target, tb, tm, bakb) if target else []
+    fx = file_effects(reg, target, tb, tm, bakb, failed=isinstance(status, tuple)) if target else []
     facts.update(status=status, target=target, before=tb, stdout=out, fx=fx)
     obs = run_sx(status, lines, fx)
     return req, obs, facts
+
+
+def make_chooser():
+    """Deterministic stand-in for secrets.choice: the k-th call returns pool[k mod len(pool)]."""
+    k = [0]
+
+    def choice(seq):
+        if not seq:
+            raise IndexError("Cannot choose from an empty sequence")
+        c = seq[k[0] % len(seq)]
+        k[0] += 1
+        return c
+    return choice
 
 
 def judge_set(case, f):
@@ -1270,6 +1390,31 @@ def judge_set(case, f):
         return "yaml-set failed (status %s) but changed the file" % (st,)
     if st == 0 and any("unparsable" in x for x in f["fx"]):
         return "yaml-set exited 0 but left a file that does not load again"
+    if st == 0:
+        v = judge_random(ns, f, now.decode("utf-8", "replace") if now is not None else noise_lines(f["stdout"], False)[1])
+        if v:
+            return v
+    return None
+
+
+def judge_random(ns, f, text):
+    """--random LEN --random-from POOL: every node at the change path holds LEN characters of POOL
+    (the characters themselves are the oracle's).  Only for alphabetic pools: a string of digits is
+    re-typed by the library."""
+    E = _ENV
+    if ns.random is None or ns.value is not None or ns.stdin or ns.file or ns.null or ns.delete or ns.aliasof \
+            or ns.mergekey or ns.eyamlcrypt or not ns.random_from.isalpha() or ns.format != "default":
+        return None
+    try:
+        doc = E["Parsers"].get_yaml_editor().load(text)
+        proc = E["EYAMLProcessor"](NullLog(), doc)
+        got = [str(nc.node) for nc in proc.get_nodes(E["YAMLPath"](ns.change, pathsep=ns.pathsep), mustexist=True)]
+    except Exception:  # noqa
+        return "yaml-set --random exited 0 but the changed path does not resolve in the result"
+    want_len = max(ns.random, 0)
+    for g in got:
+        if len(g) != want_len or any(c not in ns.random_from for c in g):
+            return "yaml-set --random %d --random-from %s wrote %r" % (ns.random, ns.random_from, g)
     return None
 
 
@@ -1483,7 +1628,33 @@ def twin_of(case):
     return {"tool": case["tool"], "argv": argv, "files": files, "stdin": text}
 
 
+class _QuietFd2:
+    """The EYAML stand-in is a child process: what it writes to file descriptor 2 (its complaints
+    about keys) bypasses sys.stderr.  Point fd 2 at /dev/null while such a case runs."""
+    def __init__(self, on):
+        self.on = on
+
+    def __enter__(self):
+        if self.on:
+            sys.stderr.flush()
+            self.saved = os.dup(2)
+            self.null = os.open(os.devnull, os.O_WRONLY)
+            os.dup2(self.null, 2)
+
+    def __exit__(self, *a):
+        if self.on:
+            os.dup2(self.saved, 2)
+            os.close(self.saved)
+            os.close(self.null)
+        return False
+
+
 def _run_one(case):
+    with _QuietFd2(any("eyaml" in str(x) for x in case["argv"])):
+        return _run_one_inner(case)
+
+
+def _run_one_inner(case):
     tool = case["tool"]
     d = _setup_dir(case)
     cwd = os.getcwd()
